@@ -461,8 +461,9 @@ func (in *Interp) convert(from, to types.Type, v Value, site ssa.Instruction) Va
 			return symInt(mkResize(sv.t, wt, sf), st)
 		}
 		if isString(to) && isInt(from) {
-			// string(rune)
-			in.assumeASCIIRune(sv.t)
+			// string(rune) / string(byte): the integer is a code point (a byte is an unsigned one)
+			_, sf := width(from)
+			in.assumeASCIIRune(mkResize(sv.t, 32, sf))
 			return strFromBytes([]*Term{mkExtract(sv.t, 7, 0)})
 		}
 		if isFloat(to) && isInt(from) {
